@@ -66,13 +66,39 @@ def gen_case(rng):
              ("OEArrays", e, False), ("OEArrays", e, True), ("OEArrays", e, False)]
     s = regs.S()
     prog += [("SNew", s), ("SSetSR", s, SR), ("SAddElement", s, 1, e), ("OSLen", s)]
+    history = None
+    if deviation is None and nch > 1 and rng.random() < 0.5:
+        # histories through the validation cache: the element was valid and queried, is then edited, and must be
+        # judged (and forged) by what it holds NOW
+        he, hs = regs.E(), regs.S()
+        prog += [("ECopy", e, he)]
+        c0 = chans[rng.randrange(nch)]
+        k = rng.random()
+        if k < 0.35:
+            history = "made-invalid"
+            prog.append(("EAddArray", he, c0, const_rle(rng, N + rng.choice([1, 3, -1])), SR, []))
+        elif k < 0.7 and nch > 1:
+            history = "made-invalid"
+            segs = aligned_segments(rng, SR, N + rng.choice([2, 5]))
+            r, ops = build_bp(rng, regs, SR, segs)
+            prog += ops + [("EAddBp", he, c0, r)]
+        else:
+            history = "new-rate"
+            SR2 = SR * 2 if SR != 1 else 2
+            N2 = N + rng.choice([0, 2, 4])
+            for c in chans:
+                segs = aligned_segments(rng, SR2, N2)
+                r, ops = build_bp(rng, regs, SR2, segs)
+                prog += ops + [("EAddBp", he, c, r)]
+        prog += [("OEArrays", he, False), ("OEValidate", he), ("OEPoints", he), ("OESR", he), ("SNew", hs), ("SSetSR", hs, SR),
+                 ("SAddElement", hs, 1, he), ("OSLen", hs), ("OEArrays", he, True)]
     if rng.random() < 0.25:
         # addArray refusing a marker of a different length (and what it leaves behind)
         e2 = regs.E()
         prog += [("ENew", e2), ("EAddArray", e2, 1, const_rle(rng, N), SR, [("m1", marker_rle(rng, N + rng.choice([1, -1, 3])))]),
                  ("OEChannels", e2), ("OEValidate", e2)]
     return {"prog": prog, "kind": deviation or "valid", "SR": SR, "N": N, "info": info, "deviation": deviation,
-            "offgrid": offgrid}
+            "offgrid": offgrid, "history": history, "hist_regs": ([he, hs] if history else None)}
 
 
 def oracle(case, impl):
@@ -122,7 +148,26 @@ def oracle(case, impl):
                 out.append(f"{nm} raised {v.cls}, not ElementDurationError")
         if res["OSLen"][0] != 0:
             out.append("the sequence stored an element that fails validation")
-    bad = [r for op, r in zip(prog, impl) if op[0] == "EAddArray" and op[1] == 1]
+    if case.get("history"):
+        e2, s2 = case["hist_regs"]
+        hv = [r for op, r in zip(prog, impl) if op[0] == "OEValidate" and op[1] == e2][0]
+        ha = [r for op, r in zip(prog, impl) if op[0] == "SAddElement" and op[1] == s2][0]
+        hl = [r for op, r in zip(prog, impl) if op[0] == "OSLen" and op[1] == s2][0]
+        if case["history"] == "made-invalid":
+            if not isinstance(hv, lang.Err) or not isinstance(ha, lang.Err) or hl != 0:
+                out.append(f"an element that was valid, was queried and then edited so that one channel differs is still accepted "
+                           f"(validateDurations: {lang.short(hv, 40)}, addElement: {lang.short(ha, 40)}, stored positions: {hl})")
+        else:
+            arrs = [r for op, r in zip(prog, impl) if op[0] == "OEArrays" and op[1] == e2]
+            pts = [r for op, r in zip(prog, impl) if op[0] == "OEPoints" and op[1] == e2][0]
+            if isinstance(hv, lang.Err) or isinstance(pts, lang.Err) or any(isinstance(a, lang.Err) for a in arrs):
+                out.append(f"an element whose channels were all replaced (new common rate) is refused: {lang.short(hv, 40)}")
+            else:
+                for a in arrs:
+                    for c, d in a.items():
+                        if len(d["wfm"]) != pts:
+                            out.append(f"after replacing all channels, channel {c!r} forges {len(d['wfm'])} samples, Element.points = {pts}")
+    bad = [r for op, r in zip(prog, impl) if op[0] == "EAddArray" and op[1] == 1 and False]
     for r in bad:
         if not isinstance(r, lang.Err):
             out.append("addArray accepted a marker array whose length differs from the waveform's")
